@@ -43,6 +43,8 @@ def role_of(stmt):
         return 'SELECT-SETTINGS'
     if w == 'UPDATE' and 'UPDATE SETTINGS' in u:
         return 'UPDATE-SETTINGS'
+    if w == 'INSERT' and 'INTO SETTINGS' in u:
+        return 'INSERT-SETTINGS'      # Cache.__init__ (re)writing its settings: not a write to the Cache table
     return w
 
 
